@@ -368,9 +368,15 @@ def fit_lsq(prog, rep):
         terms = [b.def_term(d) for d in reach]
         if kind == "array":
             raw = ("call", G("numpy.asarray_chkfinite"), (P("weights"),), ())
-            ok = bool(terms) and all(mentions(tm, raw) for tm in terms)
+            raws = [raw] + [("call", G("numpy.asarray_chkfinite"), (P("weights"),), (("dtype", f_),)) for f_ in fl] + [("call", G("numpy.asarray_chkfinite"), (P("weights"), f_), ()) for f_ in fl]
+            ok = bool(terms) and all(any(mentions(tm, r_) for r_ in raws) for tm in terms)
             rep.check(ok, "C13.weights", inst, fn.where(), "array weights go through asarray_chkfinite",
                       f"array weights must be the finite-checked user array (one weight per observation); found {[show(tm)[:80] for tm in terms]}")
+            # w / sum(w) is computed in the dtype of the array: an int64 sum wraps round beyond 9.2e18, a float16 sum overflows at 65504
+            okf = bool(terms) and all(any(mentions(tm, r_) for r_ in raws[1:]) for tm in terms)
+            rep.check(okf, "C13.weights", inst + ":float", fn.where(), "array weights are converted to float before they are summed",
+                      "np.asarray_chkfinite(weights) keeps the dtype of the array: fit(x, 'wlsq', weights=base * 10**16) with int64 base in 1..9 (n = 1000) wraps round in "
+                      "sum(w) - alpha 0.134 / beta -7.66 instead of 2.0168 / 1.5606 for the same weights as floats, no error; float16 weights give nan; convert with dtype=float")
             continue
         if kind == "none":
             ok = len(terms) == 1 and terms[0] in (("call", G("numpy.ones_like"), (x_t,), ()), ("call", G("numpy.ones"), (n,), ()))
